@@ -68,7 +68,7 @@ func strictCauses() []string {
 
 func pick[T any](t *simsync.Tape, xs []T) T { return xs[t.Choice(len(xs))] }
 
-// World is the entry point registered for property C07x.
+// World is the entry point registered for property C07.
 func World(prop string) simrun.World {
 	return func(r *simrun.Run) {
 		w := &world{r: r, k: r.K, t: r.T, strict: map[string]bool{}}
